@@ -57,6 +57,7 @@ def make_items(ctx, only=None):
         if i == 2:      # a pair that ends with an error next to a clean pair and nothing else
             wl = {'files': [{'path': 'libtiny.so', 'v1': 'tiny_v0', 'v2': 'tiny_v1_nodbg'}, {'path': 'libalias.so', 'v1': 'alias_v1', 'v2': 'alias_v1'}],
                   'format': 'dir', 'abignore': 'none', 'options': ['--no-default-suppression', '--fail-no-dbg']}
+        wl.pop('self_check', None)      # --self-check writes into the package directory, which the runs of this check share
         wl['format'] = 'dir' if i % 3 else 'tar'
         d = os.path.join(root, 'w%d' % i)
         os.makedirs(d)
